@@ -46,7 +46,18 @@ def relation(r: str, t: str) -> str:
         if x != y:
             break
         common += 1
-    return f"cousin-up{len(rp) - common}-down{len(tp) - common}"
+    extra = ""
+    if r.startswith(t) or t.startswith(r):
+        extra += "+string-prefix"  # one dotted name is a textual prefix of the other without being its ancestor
+    if "google" in (rp[0], tp[0]):
+        extra += "+google-namespace"  # user packages under google.* (googleapis layout), not the bundled library
+    return f"cousin-up{len(rp) - common}-down{len(tp) - common}" + extra
+
+
+# packages whose NAMES are related although the packages are not: textual prefixes (a.b / a.bc) and
+# the google.* namespace the bundled well-known types live in
+SPECIAL_PACKAGES = ["ab", "a.ab", "a.ab.b", "a.a.ab", "google.rpc", "google.type.x", "google.a"]
+SPECIAL_PARTNERS = ["", "a", "a.a", "a.b", "a.a.b"]
 
 
 def q(pkg: str, name: str) -> str:
@@ -331,8 +342,13 @@ def plan(tier: str):
     pk = packages(3)
     items: List[Tuple[str, Any]] = [("pair", (r, t)) for r in pk for t in pk]
     items += [("rpconly", (r, t)) for r in pk for t in pk if r != t]
+    sp = SPECIAL_PACKAGES + SPECIAL_PARTNERS
+    items += [("pair", (r, t)) for r in sp for t in sp
+              if r != t and (r in SPECIAL_PACKAGES or t in SPECIAL_PACKAGES)]
+    items += [("rpconly", (r, t)) for r in SPECIAL_PACKAGES for t in SPECIAL_PACKAGES if r != t]
     # all packages referencing each other at once (circular): depth <= 2 in the quick tier
     items.insert(0, ("all", pk if tier == "thorough" else packages(2)))
+    items.insert(1, ("all", SPECIAL_PACKAGES + SPECIAL_PARTNERS))
     items += [("wkt", r) for r in pk]
     if tier == "thorough":
         extra = [p for p in packages(4) if p.count(".") == 3][:8] + ["a.x", "b.x", "x.a", "x.b", "a.x.a"]
